@@ -42,6 +42,14 @@ CHECKS = {
   "note": COMMON_NOTE + "Modelled not verified: float64 arithmetic (the theorems are about exact rationals; decisions are compared "
           "exactly, numbers within 1e-9), non-decreasing time, method atomicity by the mutex, Go map iteration order in LFU eviction.",
  },
+ "C16": {
+  "text": "The logical parts as theorems: tokens in use = tracked seeds for every history of reactor calls (so nothing tracked means all "
+          "tokens free); the limiter table never exceeds its bound; after postprocess no node down to the working depth holds a body; "
+          "every accepted seed is in flight at most once. The runtime parts measured: stage-level passes must leave 0 open bodies; pairs "
+          "of whole crawls of N and 4N seeds (spooled bodies, failures, redirects, several hosts, limiter on) must both rest with no "
+          "tracked seed, no temporary file, the table within its bound, and equal goroutine / descriptor counts.",
+  "note": COMMON_NOTE + "Goroutine, descriptor and temp-file counts are measured on the running process, not proved; heap growth is not compared.",
+ },
  "C17": {
   "text": "The stats primitives are *translated* on every run into micro-op programs (atomic add/load/store/swap, anything else as "
           "separate non-atomic load and store); theorem: a cell written only by atomic adds ends at initial + all adds (mod 2^64) under "
